@@ -57,6 +57,8 @@ class DropoutCase:
         training = True
         ndraw = 0
         nf = 0
+        defer = bool(sp.get("defer"))       # all backward calls after the last forward (a layer shared by several branches)
+        recs = []
         for i, act in enumerate(sp["history"]):
             if act == "t":
                 m.train()
@@ -67,26 +69,33 @@ class DropoutCase:
             else:
                 x = Tn(env.arr("x%d" % nf, shape), requires_grad=True)
                 y = m(x)
-                tag = "forward %d (%s)" % (nf, "train" if training else "eval")
+                tag = "forward %d (%s%s)" % (nf, "train" if training else "eval", ", backward deferred" if defer else "")
                 g = env.arr("g%d" % nf, shape, lo=-2, hi=2)
-                y.backward(Tn(g))
-                if not training:
-                    out.pair("eval is the identity: " + tag, y.data, x.data)
-                    out.pair("eval backward is the identity: " + tag, x._grad, g)
-                else:
+                if not defer:
+                    y.backward(Tn(g))
+                if training:
                     ndraw += 1
-                    u = draw(env, ndraw, shape)
-                    exp = objarr(shape)
-                    gexp = objarr(shape)
-                    for idx in np.ndindex(*shape):
-                        keep = (u[idx] > p)
-                        scale = (1.0 / (1.0 - p)) if p < 1 else 1.0
-                        exp[idx] = x.data[idx] * scale if keep else x.data[idx] * 0
-                        gexp[idx] = g[idx] * scale if keep else g[idx] * 0
-                    out.pair("x_i*[u_i>p]/(1-p): " + tag, y.data, exp if env.sym else np.array(exp, dtype=np.float64))
-                    out.pair("backward through the same mask: " + tag, x._grad, gexp if env.sym else np.array(gexp, dtype=np.float64))
+                recs.append((x, y, g, tag, training, ndraw))
                 out.fact("module.training follows the switches: " + tag, m.training == training)
                 nf += 1
+        if defer:
+            for x, y, g, tag, tr, k in recs:
+                y.backward(Tn(g))
+        for x, y, g, tag, tr, k in recs:
+            if not tr:
+                out.pair("eval is the identity: " + tag, y.data, x.data)
+                out.pair("eval backward is the identity: " + tag, x._grad, g)
+            else:
+                u = draw(env, k, shape)
+                exp = objarr(shape)
+                gexp = objarr(shape)
+                for idx in np.ndindex(*shape):
+                    keep = (u[idx] > p)
+                    scale = (1.0 / (1.0 - p)) if p < 1 else 1.0
+                    exp[idx] = x.data[idx] * scale if keep else x.data[idx] * 0
+                    gexp[idx] = g[idx] * scale if keep else g[idx] * 0
+                out.pair("x_i*[u_i>p]/(1-p): " + tag, y.data, exp if env.sym else np.array(exp, dtype=np.float64))
+                out.pair("backward through the same mask: " + tag, x._grad, gexp if env.sym else np.array(gexp, dtype=np.float64))
         return out
 
 
@@ -189,6 +198,9 @@ def enumerate_specs(tier):
             if h.count("f") > 2:
                 continue
             specs.append({"kind": "dropout", "p": p, "shape": [2], "history": h})
+    for p in (0.5, 0.75):
+        for h in ("ff", "fef", "ftf", "eff") + (("fff", "ffef") if tier != "quick" else ()):
+            specs.append({"kind": "dropout", "p": p, "shape": [2], "history": h, "defer": True})
     specs.append({"kind": "dropout", "p": 0.5, "shape": [2, 2], "history": "f"})
     specs.append({"kind": "dropout", "p": 0.3, "shape": [1, 2, 1], "history": "ef"})
     specs.append({"kind": "dropout", "p": 0.875, "shape": [3], "history": "f"})
@@ -228,7 +240,8 @@ def main(tier, seed):
     results = runner.run_pool(__name__, specs, tier, seed)
     return runner.finish(
         PROP, tier, seed, results, t0,
-        bounds={"history": "<= 3 (quick) / 4 (thorough) actions over {train(), eval(), forward} with <= 2/3 forwards",
+        bounds={"history": "<= 3 (quick) / 4 (thorough) actions over {train(), eval(), forward} with <= 2/3 forwards; backward right after "
+                           "each forward, or (dropout) all backward calls deferred until after the last forward",
                 "dropout": "p in {0, 0.5, 0.75, 0.875, 1} (1/(1-p) exactly representable), 2-4 elements", "batch norm": "N<=3, C<=2, ranks 2-4"},
         assumptions=["floats are reals", "uniform draws are fresh symbolic values in [0,1) (generator contract); 'zeroed with "
                      "probability p' is read as 'zeroed exactly when the draw is <= p'",
